@@ -17,18 +17,18 @@ def run(ctx):
     r.not_decided = ["Bio.Seq.reverse_complement / SeqRecord.reverse_complement arithmetic (library, T3)"]
     names = enzymes_for_tier(ctx)
     for kc in generic_classes(ctx, names):
-        revcomp_symmetry(ctx, kc, "C12.revcomp-symmetry")
+        ctx.guard(revcomp_symmetry, ctx, kc, "C12.revcomp-symmetry")
     r.floor("C12.revcomp-symmetry", 8)
     # beyond the ACGT-site quantifier: enzymes with ambiguity letters in their site, which the library also accepts
     from ..kits import ambiguous_site_enzymes
     amb = ambiguous_site_enzymes()
     r.analysed["ambiguous_site_enzymes"] = len(amb)
     for kc in generic_classes(ctx, amb):
-        revcomp_symmetry(ctx, kc, "C12.revcomp-symmetry.ambiguous-site")
+        ctx.guard(revcomp_symmetry, ctx, kc, "C12.revcomp-symmetry.ambiguous-site")
     # every concrete generic (non-literal, non-part) class of the kits as well
     for kc in ctx.inventory:
         if kc.concrete and not kc.is_part and kc.structure_owner is not kc.ci:
-            revcomp_symmetry(ctx, kc, "C12.revcomp-symmetry.kit")
+            ctx.guard(revcomp_symmetry, ctx, kc, "C12.revcomp-symmetry.kit")
     from ..kernels import run_kernels
     run_kernels(ctx, ["K10", "K7", "K8", "K14", "K15", "K1"], "C12")
     from ..rules_flow import revcomp_wrapper_rule
